@@ -18,15 +18,6 @@ verus! {
 //@include ../common/poll.rs
 //@include ../common/bytes.rs
 
-// `?` on Poll<Result<..>> (core's FromResidual impls)
-pub assume_specification<T, E, F: From<E>>[ <Poll<Result<T, F>> as core::ops::FromResidual<Result<core::convert::Infallible, E>>>::from_residual ](
-    x: Result<core::convert::Infallible, E>) -> (r: Poll<Result<T, F>>)
-    ensures r matches Poll::Ready(Err(_));
-
-pub assume_specification<T, E, F: From<E>>[ <Poll<Option<Result<T, F>>> as core::ops::FromResidual<Result<core::convert::Infallible, E>>>::from_residual ](
-    x: Result<core::convert::Infallible, E>) -> (r: Poll<Option<Result<T, F>>>)
-    ensures r matches Poll::Ready(Some(Err(_)));
-
 // ===================================================================== transport and codec traits (TRUSTED BASE)
 /// rule R4d turns `this.io` (a `Pin<&mut T>`) into `(&mut self.io)`; `as_mut()` re-borrows it
 pub trait VPin: Sized {
